@@ -603,6 +603,15 @@ def _born_match(world, pre, T, draws, outcomes, cell, out, props, rho0=None, dim
                     return False
             return True
         d = draws[k]
+        # re-measurement of an already collapsed subsystem: a point-mass draw on the outcome
+        # that was already reported (e.g. the partner measured once more) carries no information
+        pk = np.real(np.asarray(d["p"], dtype=np.complex128))
+        if np.all(np.isfinite(pk)) and pk.sum() > 0 and pk.max() / pk.sum() > 1 - 1e-9:
+            for m in measured:
+                if m in used and outcomes[m] == d["idx"] and d["n"] >= dims[members.index(m)]:
+                    if rec(k + 1, used, given):
+                        return True
+                    break
         for m in measured:
             if m in used:
                 continue
@@ -720,6 +729,7 @@ def _check_povm(world, pre, post, r, res, S, cell, out, tol):
         out.append(Violation(props, "povm", "bad-return", cell, repr(ret)[:80]))
         return
     others = _names_of_outcomes(world, ret[1], cell, out, props)
+    S = list(r["on"])
     touched_set = sorted(set(S) | set(others) | {world.partner(n) for n in S if world.partner(n) and n in pre.where and world.partner(n) in pre.where})
     touched_set = [n for n in touched_set if n in pre.where]
     T = Touched(pre, post, touched_set)
@@ -805,11 +815,11 @@ def _check_povm(world, pre, post, r, res, S, cell, out, tol):
     compare_expected(e, live, ed, T, props, "povm", cell, out, tol)
 
 
-def _ret_to_rho(world, pre, on, ret):
+def _ret_to_rho(world, post, on, ret):
     """Convert a trace_out return value to (rho, was_vector)."""
     from photon_weave.state.polarization import PolarizationLabel
 
-    dims = [pre.sub[n]["dims"] for n in on]
+    dims = [post.sub[n]["dims"] for n in on]
     if isinstance(ret, PolarizationLabel):
         v = R.POL_VEC[ret.value]
         return np.outer(v, v.conj()), True, [2]
@@ -836,7 +846,7 @@ def _check_trace_out(world, pre, post, r, res, S, cell, out, tol):
         return
     keep = [T.pre_members.index(n) for n in on]
     ref, rd = R.ptrace_keep(T.rho_pre, T.dims_pre, keep)
-    got, was_vec, gd = _ret_to_rho(world, pre, on, res.ret)
+    got, was_vec, gd = _ret_to_rho(world, post, on, res.ret)
     if got is None:
         out.append(Violation(["C02"], "trace-out", "bad-return-shape", cell, f"{getattr(res.ret, 'shape', type(res.ret))} for dims {rd}"))
         return
